@@ -2403,3 +2403,7 @@ mod tests {
         }
     }
 }
+
+#[cfg(pendulum_project_ntpd_rs_verif)]
+#[path = "/verif/hooks/ntp_proto/packet_probe.rs"]
+mod verif_probe;
